@@ -18,7 +18,7 @@ ID = "C17"
 LEAN_TARGETS = ["Strengths.Props.C17"]
 PROP_FILES = ["Strengths/Props/C17.lean"]
 GEN_GROUPS = ["IndexPy", "TrajPy", "Units"]
-RULE = ("trajectories: nsamples 1..6 x nspecies 1..4 x (grid w,h,d 1..3 | graph 1..6 nodes), data = distinct known numbers, "
+RULE = ("trajectories: nsamples 1..6 x nspecies 1..4 x (grid w,h,d 1..3 | graph 1..6 nodes), data = distinct known numbers (about a third of the trajectories with negative entries), "
         "times non-decreasing dyadic (mostly strictly increasing, some with repeated times, some 'bursts': large offset + tiny strictly "
         "increasing steps with relative spacing below 1e-9), random time / quantity units; "
         "every (species, sample, cell) triple read through the four accessors with rotating argument forms "
@@ -211,6 +211,9 @@ def build_case(ctx, rng, idx):
     base = rng.randint(0, 50)
     data = [float(base + i + Fraction(rng.randint(0, 7), 8)) for i in range(N * ns * nc)]
     rng.shuffle(data)
+    if rng.random() < 0.35:
+        # trajectories may hold negative numbers (an overshooting Euler step, a difference of two trajectories)
+        data = [-v if rng.random() < 0.4 else v for v in data]
     ts, dup = gen_times(rng, N)
     from strengths.units import Units, UnitsSystem, UnitsDimensions
     du = Units(UnitsSystem(*dsys), UnitsDimensions(0, 0, 1))
@@ -588,6 +591,8 @@ def run(ctx):
         ctx.count("space_" + c["kind"])
         ctx.count("nsamples_%d" % c["N"])
         ctx.count("times_repeated" if c["dup"] else "times_strict")
+        if any(v < 0 for v in c["data"]):
+            ctx.count("data_with_negative_entries")
         if any(0 < (b - a) <= abs(b) / 10 ** 9 for a, b in zip(c["ts"], c["ts"][1:])):
             ctx.count("times_burst_relative_spacing_below_1e-9")
         cases.append(c)
